@@ -220,7 +220,7 @@ def C36(ctx):
         raise ToolError("lifecycle traffic not exhaustive over its classes: %d scenarios, missing error classes %s, %d instruction kinds" % (
             len(scen), sorted(need_errs - errs), len(ops_t)))
     accepted_scen = {e["scenario"] for e in evs if "scenario" in e and e["static"]["all"] == "ok" and e["run"]["cls"] == "commit"}
-    if not {"take-deposit", "unlock-by-drop", "unlock-by-drop-named", "clone-both-dropped", "alloc-used", "yield-parent-bucket", "assert-next-then-call"} <= accepted_scen:
+    if not {"take-deposit", "unlock-by-drop", "unlock-by-drop-named", "clone-both-dropped", "alloc-used", "yield-child-0", "assert-next-then-call"} <= accepted_scen:
         raise ToolError("expected well-formed scenarios did not commit: have %s" % sorted(accepted_scen))
     by = lambda pred: copy.deepcopy(next(e for e in evs if pred(e)))
     muts = []
